@@ -274,12 +274,14 @@ def main(args):
     seeds_dir = os.path.join(VERIF, "seeded")
     want = set(args)
     jobs = []
-    if not want or "regress" in want:
+    named_regress = {w[len("regress:"):] for w in want if w.startswith("regress:")}
+    if not want or "regress" in want or named_regress:
         for h, subj, pid, keys in fix_regressions():
-            jobs.append((regress_case, (h, subj, pid, keys)))
+            if "regress" in want or not want or any(h.startswith(x) or x.startswith(h) for x in named_regress):
+                jobs.append((regress_case, (h, subj, pid, keys)))
     groups = {"regress", "benign", "corpus"}
     named_corpus = {w[len("corpus:"):] for w in want if w.startswith("corpus:")}
-    named_seeds = {w for w in want if w not in groups and not w.startswith("corpus:")}
+    named_seeds = {w for w in want if w not in groups and not w.startswith("corpus:") and not w.startswith("regress:")}
     if not want or named_seeds or "seeds" in want:
         for name in sorted(os.listdir(seeds_dir)):
             if not os.path.isdir(os.path.join(seeds_dir, name)) or (named_seeds - {"seeds"} and name not in named_seeds):
